@@ -230,7 +230,7 @@ func hashCase(c kase) string {
 		}
 		// the clone really is the same transaction: nothing the wire format carries got lost
 		if !bytes.Equal(types.Encode(cl), types.Encode(tx)) {
-			return c.Kind + " drops or alters a field of the transaction"
+			return c.Kind + " does not preserve the transaction (its encoding differs), so hash preservation would be vacuous"
 		}
 		return ""
 	}
@@ -363,6 +363,14 @@ func signed(d *drv, addrID int32) *types.Transaction {
 		return tx
 	}
 	tx.Sign(ty, d.priv)
+	if d.name == "ed25519" {
+		// deterministic search (fixed key, nonce = 1001, 1002, ...) for a signature ending in 0x00,
+		// so that the fixed-size copy in SignatureFromBytes can be probed with a shortened signature
+		for i := 0; i < 400 && tx.Signature.Signature[len(tx.Signature.Signature)-1] != 0; i++ {
+			tx.Nonce++
+			tx.Sign(ty, d.priv)
+		}
+	}
 	return tx
 }
 
@@ -447,6 +455,10 @@ func structured(d *drv, sig *types.Signature) []fmut {
 			}
 		}
 	}
+	// a signature that ends in zero bytes, with those bytes cut off (signed() picks a nonce that makes one)
+	if n := len(bytes.TrimRight(sig.Signature, "\x00")); d.name == "ed25519" && n < len(sig.Signature) {
+		setSig("cut-trailing-zero-bytes", append([]byte{}, sig.Signature[:n]...))
+	}
 	// a compressed key padded to the uncompressed length (33 -> 65 bytes)
 	if len(sig.Pubkey) == 33 {
 		setPub("pad-to-65-bytes", append(append([]byte{}, sig.Pubkey...), make([]byte, 32)...))
@@ -464,6 +476,12 @@ func sigMuts(d *drv, tx *types.Transaction) []fmut {
 // altClass groups accepted alterations into finding classes.
 func altClass(c kase) string {
 	k := c.Kind
+	if strings.HasPrefix(k, "append-") {
+		return "trailing-bytes"
+	}
+	if c.Field == "signature.signature" && (k == "truncate-1" || k == "cut-trailing-zero-bytes") {
+		return "short-zero-padded"
+	}
 	if strings.HasPrefix(k, "flip-bit-") {
 		var b int
 		fmt.Sscanf(k, "flip-bit-%d", &b)
@@ -566,7 +584,10 @@ func partSig() {
 				if f != "" {
 					fp := fmt.Sprintf("sig:%s:%s", d.name, vx.Norm(f, 60))
 					if c.Kind != "honest" {
-						fp = fmt.Sprintf("sig:%s:%s:%s", d.name, c.Field, altClass(c))
+						fp = fmt.Sprintf("sig:%s:%s:%s-accepted", d.name, c.Field, altClass(c))
+						if strings.Contains(f, "panics") {
+							fp = fmt.Sprintf("sig:%s:%s:panic", d.name, c.Field)
+						}
 					}
 					r.Violate(fp, fmt.Sprintf("%s: driver %s, %s %s at height %d (%s)", f, d.name, c.Field, c.Kind, c.Height, vx.J(c)), c, func() string { return sigCase(c) })
 				}
